@@ -192,8 +192,27 @@ SOLID = "abcdé字\u00a0\u3000\u2003"      # incl. NO-BREAK SPACE, IDEOGRAPHIC S
 WSCH = [" ", " ", " ", "\t", "\n", "\r", "\r\n"]
 
 
+# a few fixed LONG literals (64 characters and more, beginning / ending with white space or not): the same long text turns up
+# again and again, in one paragraph and in others handled by the same process, each time in a different context
+LONG_LITERALS = [" and the band played on and on and on until the last light went out " + "x" * 10,
+                 "\n      every good boy deserves favour, every good boy deserves favour\n    ",
+                 "no leading space here but more than sixty-four characters in this one too, ", "\tTAB first then sixty-odd characters "
+                 "of perfectly ordinary running text."]
+
+
 def rand_text(rng, mix, mode, budget):
   """Random literal text; in `tidy` mixes preserve-mode text does not begin or end with white space (stays in the domain)."""
+  if budget[0] > 150 and not (mix == "tidy" and mode == P):
+    r = rng.random()
+    if r < 0.25:
+      s = rng.choice(LONG_LITERALS)
+      budget[0] -= len(s)
+      return s
+    if r < 0.4:
+      # one very long run of collapsible white space (deep indentation after a line break), between solid characters
+      s = rng.choice(["", "a"]) + rng.choice(["\n", " ", "\r\n"]) + rng.choice([" ", "\t"]) * rng.randint(33, 90) + rng.choice(["", "b"])
+      budget[0] -= len(s)
+      return s
   n = rng.randint(0, 6) if rng.random() < 0.9 else 0
   out = []
   for _ in range(min(n, max(budget[0], 0))):
@@ -289,7 +308,7 @@ def rand_doc(rng):
   div = b.add("div", body)
   mix = rng.choice(["default", "default", "preserve", "tidy", "tidy", "tidy", "wild", "wild"])
   p = b.add("p", div, rand_space(rng, mix))
-  budget = [rng.randint(4, 60)]
+  budget = [rng.randint(4, 60) if rng.random() < 0.95 else rng.randint(300, 500)]
   for _ in range(rng.randint(1, 7)):
     r = rng.random()
     if r < 0.62:
